@@ -274,6 +274,22 @@ func c13Days(r *RNG, n int) []int {
 	}
 	res := make([]int, n)
 	d := base
+	if n > 200 {
+		// a long statement (stream big): a busy account, a few hundred to two thousand booking days with one to some hundred
+		// rows each and no gaps of a year, so that tens of thousands of rows stay within a decade (dates beyond the year 9999
+		// are not dates of the journal syntax; the model's journal builder takes time proportional to rows x days)
+		busy := r.Range(200, 2000)
+		for i := range res {
+			if r.Intn(n) < busy {
+				d++
+				if r.Chance(1, 5) {
+					d += r.Range(1, 4)
+				}
+			}
+			res[i] = d
+		}
+		return res
+	}
 	for i := range res {
 		switch r.Intn(6) {
 		case 0, 1:
@@ -577,7 +593,14 @@ func c13GenBase(r *RNG, imp string) *c13Stmt {
 	panic("no generator for " + imp)
 }
 
+// c13ForceRows > 0: the next statements have this many rows (the big stream sets it while it builds its statements, which
+// happens sequentially; the other streams draw 0..60 rows).
+var c13ForceRows int
+
 func c13RowCount(r *RNG) int {
+	if c13ForceRows > 0 {
+		return c13ForceRows
+	}
 	switch r.Intn(10) {
 	case 0:
 		return 0
